@@ -9,8 +9,8 @@ import tempfile
 import warnings
 
 from .core import exc_class, hx, unhx
-from .fstree import (FILE_MODES, collect_ids, count_nodes, enc_tree, gen_name, gen_tree, has_kind, materialise, shrink_tree,
-                     subdirs)
+from .fstree import (FILE_MODES, ROOT_SPELLINGS, collect_ids, count_nodes, enc_tree, gen_name, gen_tree, has_kind, materialise,
+                     shrink_tree, spelled_root, subdirs)
 
 ID = "C13"
 PROPS = "Props/C13.v"
@@ -40,8 +40,10 @@ RULE = ("random file-system trees (depth <= 5, <= 60 nodes, files 0..100 bytes p
         "as an item, duplicated items, exactly one item, 20+ items, and the argument passed as list / tuple / set / "
         "frozenset / dict keys view and (patterns: Iterable[bytes]) a one-shot iterator or generator; the ROOT PATH is a case dimension for every filter "
         "kind: absolute real path, 1-3 trailing slashes, relative to the working directory (with and without './'), "
-        "with '/./' and 'x/../' components, through a symbolic link to an ancestor directory (absolute or relative), the "
-        "root itself a symbolic link to the tree; the root_path given to ignore_directories_patterns is spelled like the "
+        "with '/./' and 'x/../' components, doubled slashes inside, through a symbolic link to an ancestor directory (absolute "
+        "or relative), the root itself a symbolic link to the tree (also followed by '/' or '/.'), '<dir>/<link>/../<name>' "
+        "where the link points elsewhere so that the lexically collapsed path designates nothing or a different tree "
+        "(decoy), an absolute path whose first component is a symbolic link (shared with C06: harness/fstree.py); the root_path given to ignore_directories_patterns is spelled like the "
         "path given to from_disk or in another spelling of the same absolute path (absolute / relative / trailing slash "
         "/ '/.'), never resolving symbolic links; each case is read with the filter, read again unfiltered from a copy "
         "pruned by an independent routine of the harness (own glob matcher, fnmatch not used), read without limit, and "
@@ -301,7 +303,7 @@ def gen_filter(rng, t):
     return {"named": [p.hex() for p in pool], "cs": rng.random() < 0.5, "as": rng.choice(["list", "list", "tuple", "set", "frozenset"])}
 
 
-ROOT_SHAPES = ["real", "slash1", "slash3", "rel", "reldot", "dot", "dotdot", "vialink", "vialink_rel", "vialink_abs", "rootlink", "rootlink_abs"]
+ROOT_SHAPES = ROOT_SPELLINGS      # shared with C06 (harness/fstree.py)
 FSPELLS = ["same", "abs", "slash", "rel", "dotted"]
 
 
@@ -751,38 +753,9 @@ def _export_facts(d, expected, limit):
     return sorted(out), bad
 
 
-def _layout(tmp, shape, t):
-    """materialise t under tmp in the given shape (the working directory is tmp); returns the path to give from_disk"""
-    root = os.path.join(tmp, b"root")
-    if shape.startswith("vialink"):
-        os.mkdir(os.path.join(tmp, b"real"))
-        materialise(t, os.path.join(tmp, b"real", b"root"))
-        os.symlink(os.path.join(tmp, b"real") if shape == "vialink_abs" else b"real", os.path.join(tmp, b"link"))
-        return b"link/root" if shape == "vialink_rel" else os.path.join(tmp, b"link", b"root")
-    if shape.startswith("rootlink"):
-        materialise(t, os.path.join(tmp, b"real_root"))
-        os.symlink(os.path.join(tmp, b"real_root") if shape == "rootlink_abs" else b"real_root", root)
-        return root
-    materialise(t, root)
-    if shape == "slash1":
-        return root + b"/"
-    if shape == "slash3":
-        return root + b"///"
-    if shape == "rel":
-        return b"root"
-    if shape == "reldot":
-        return b"./root"
-    if shape == "dot":
-        return tmp + b"/./root"
-    if shape == "dotdot":
-        os.mkdir(os.path.join(tmp, b"x"))
-        return tmp + b"/x/../root"
-    return root
-
-
 def _spell(path, tmp, spell):
     """another spelling of the same absolute path, links not resolved (what os.path.abspath keeps)"""
-    lexical = os.path.normpath(path if path.startswith(b"/") else os.path.join(tmp, path))
+    lexical = os.path.abspath(path)        # the working directory is tmp
     if spell == "same":
         return path, lexical
     if spell == "abs":
@@ -790,7 +763,7 @@ def _spell(path, tmp, spell):
     if spell == "slash":
         return path + b"/", lexical
     if spell == "rel":
-        return lexical[len(tmp) + 1:], lexical
+        return os.path.relpath(lexical, tmp), lexical
     return lexical + b"/.", lexical
 
 
@@ -810,11 +783,7 @@ def impl(c):
     from swh.model.from_disk import Directory
     res = {}
     t, flt, lim = c["tree"], c["filter"], c["limit"]
-    tmp = tempfile.mkdtemp(prefix="swhv13").encode()
-    cwd = os.getcwd()
-    try:
-        os.chdir(tmp)
-        root = _layout(tmp, c.get("root", "real"), t)
+    with spelled_root(t, c.get("root", "real")) as (root, tmp, _real):
         spelled, lexical = _spell(root, tmp, c.get("fspell", "same"))
         pruned = prune_tree(t, flt)
         proot = os.path.join(tmp, b"pruned")
@@ -844,9 +813,6 @@ def impl(c):
                 res["export"], res["export_bad"] = _export_facts(d, expected, lim)
             except Exception as e:
                 res["export_error"] = exc_class(e) + ":" + str(e)[:80]
-    finally:
-        os.chdir(cwd)
-        shutil.rmtree(tmp, ignore_errors=True)
     return res
 
 
